@@ -22,7 +22,7 @@ CASE_TYPE = "c03_case"
 VERDICT = "c03_verdict"
 EXPLAIN = "c03_explain"
 CASES_PER_FILE = 60
-CASE_TIMEOUT = 120
+CASE_TIMEOUT = 60
 TIERS = {"quick": {"n": 330, "search_n": 120}, "thorough": {"n": 4000, "search_n": 400}}
 RULE = ("a case = LRI/LRU with max_size 1-4 (on_miss in 30%), 0..max_size+1 initial items, 2-3 real threads x 1-3 "
         "public operations over max_size+2 keys, run under several deterministic schedules that pre-empt before chosen "
@@ -161,14 +161,25 @@ def _gen_program(rng, tier):
     return {"kind": kind, "max": mx, "on_miss": 1 if rng.random() < 0.3 else 0, "init": init, "threads": threads}
 
 
+SYS_POSITIONS = 360
+
+
 def _rand_scheds(rng, nth, count):
+    """["r", start, [tid, permille, to]...]: pre-empt thread tid before the opcode at that
+    fraction of its (baseline) opcode count inside cacheutils and run thread `to`"""
     out = []
     for _ in range(count):
-        pre = []
+        s = ["r", rng.randrange(nth)]
         for _ in range(rng.choice([0, 1, 1, 2, 2, 2, 3])):
-            pre.append([rng.randrange(nth), rng.randrange(1000), rng.randrange(nth)])
-        out.append({"start": rng.randrange(nth), "pre": pre})
+            s.append([rng.randrange(nth), rng.randrange(1000), rng.randrange(nth)])
+        out.append(s)
     return out
+
+
+def _sys_scheds(a, b):
+    """every single pre-emption position of thread a (absolute opcode index k), thread b runs
+    next; positions beyond the thread's length are skipped at run time"""
+    return [["a", a, [a, k, b]] for k in range(SYS_POSITIONS)]
 
 
 def generate(rng, tier, n):
@@ -178,7 +189,7 @@ def generate(rng, tier, n):
         if i % 10 == 3:
             a = rng.randrange(nth)
             b = (a + 1 + rng.randrange(nth - 1)) % nth
-            c["scheds"] = [{"sys": [a, b]}]
+            c["scheds"] = _sys_scheds(a, b)
         else:
             c["scheds"] = _rand_scheds(rng, nth, 14 if tier == "quick" else 30)
         yield c
@@ -331,27 +342,22 @@ def _one_run(case, plan, start):
 def _expand_scheds(case):
     """concrete (start, plan) list; plans use absolute per-thread opcode counts"""
     nth = len(case["threads"])
-    base = None
-    out = []
+    base = _one_run(case, [], 0)[1].count          # opcodes per thread without pre-emption
+    out, seen = [], set()
     for s in case["scheds"]:
-        if "sys" in s:
-            a, b = s["sys"]
-            if base is None:
-                base = _one_run(case, [], 0)[1].count
-            # thread a starts; one pre-emption before each of its opcodes -> thread b runs
-            na = base[a]
-            for k in range(0, na + 1):
-                out.append((a, [(a, k, b)]))
-        elif "abs" in s:
-            out.append((s["start"], [tuple(p) for p in s["abs"]]))
-        else:
-            if base is None:
-                base = _one_run(case, [], 0)[1].count
-            plan = []
-            for (tid, pm, to) in s["pre"]:
-                if tid < nth:
-                    plan.append((tid, (pm * (base[tid] + 1)) // 1000, to % nth))
-            out.append((s["start"] % nth, plan))
+        kind, start, pre = s[0], s[1] % nth, s[2:]
+        plan = []
+        for (tid, x, to) in pre:
+            if tid >= nth:
+                continue
+            k = x if kind == "a" else (x * (base[tid] + 1)) // 1000
+            if kind == "a" and k > base[tid] + 40:
+                continue                               # beyond the thread's last opcode: no effect
+            plan.append((tid, k, to % nth))
+        key = (start, tuple(sorted(plan)))
+        if key not in seen:
+            seen.add(key)
+            out.append((start, plan))
     return out
 
 
@@ -367,7 +373,7 @@ def run_impl(case):
         import json
         key = json.dumps(obs, sort_keys=True)
         if key not in runs:
-            obs["first_sched"] = {"start": start, "abs": [list(p) for p in plan]}
+            obs["first_sched"] = ["a", start] + [list(p) for p in plan]
             obs["mult"] = 0
             runs[key] = obs
         runs[key]["mult"] += 1
@@ -500,7 +506,7 @@ def distribution(d, case, obs):
             for x in rs:
                 if x[0] == "exn":
                     inc("exceptions", x[1])
-    if any("sys" in s for s in case["scheds"]):
+    if len(case["scheds"]) >= SYS_POSITIONS:
         inc("systematic_cases", "n")
 
 
@@ -511,7 +517,8 @@ def sample(case, obs):
 
 
 def shrink(case):
-    """smaller cases: drop an operation / an initial item / a thread; keep one schedule"""
+    """smaller cases: first halve the schedule list (cheap rounds), then drop an operation /
+    an initial item"""
     import copy
     if len(case["scheds"]) > 1:
         half = len(case["scheds"]) // 2
@@ -519,14 +526,13 @@ def shrink(case):
             c = copy.deepcopy(case)
             c["scheds"] = part
             yield c
+        return
     for t, th in enumerate(case["threads"]):
         for i in range(len(th)):
             if sum(len(x) for x in case["threads"]) <= 1:
                 break
             c = copy.deepcopy(case)
             del c["threads"][t][i]
-            if not c["threads"][t] and len(c["threads"]) > 2:
-                continue
             yield c
     for i in range(len(case["init"])):
         c = copy.deepcopy(case)
@@ -536,24 +542,24 @@ def shrink(case):
 
 def search(rng, tier, n, broken):
     """directed search after a broken tie: small two-thread programs, EVERY single
-    pre-emption position of the first thread (both roles), all methods in rotation"""
+    pre-emption position of one thread (both roles), all methods in rotation"""
     first_ops = [["set", 0, 7], ["set", 2, 7], ["get", 0], ["getd", 2, 9], ["del", 0], ["pop", 0], ["popitem"],
                  ["clear"], ["setdefault", 2, 9], ["update", [[2, 7], [3, 8]], "list"], ["ior", [[2, 7]], "dict"],
-                 ["eq", [[0, 1], [1, 2]]], ["copy"], ["setdefault", 0, 9], ["popd", 0, 5]]
+                 ["eq", [[0, 1], [1, 2]]], ["copy"], ["setdefault", 0, 9], ["popd", 0, 5], ["get", 2]]
     second = [[["set", 3, 11]], [["del", 0]], [["get", 0], ["set", 3, 11]], [["pop", 1], ["set", 0, 12]],
-              [["set", 0, 13]], [["popitem"]], [["clear"], ["set", 4, 5]], [["copy"]], [["setdefault", 2, 6]]]
+              [["set", 0, 13]], [["popitem"]], [["clear"], ["set", 4, 5]], [["copy"]], [["setdefault", 2, 6]],
+              [["get", 2]], [["update", [[3, 4], [4, 5]], "dict"]]]
+    combos = [(a, b) for a in first_ops for b in second]
+    rng.shuffle(combos)
     count = 0
-    for rep in range(1000):
-        for a in first_ops:
-            for b in second:
-                if count >= n:
-                    return
-                kind = rng.choice(["LRI", "LRU"])
-                mx = rng.choice([2, 2, 3])
-                init = [[0, 1], [1, 2], [5, 3]][:mx]
-                for (x, y) in ((0, 1), (1, 0)):
-                    yield {"kind": kind, "max": mx, "on_miss": rng.choice([0, 0, 1]), "init": init,
-                           "threads": [[a], b] if x == 0 else [b, [a]], "scheds": [{"sys": [x, y]}]}
-                    count += 1
-                rng.shuffle(second)
-        rng.shuffle(first_ops)
+    for (a, b) in combos:
+        kind = rng.choice(["LRI", "LRU"])
+        mx = rng.choice([2, 2, 3])
+        init = [[0, 1], [1, 2], [5, 3]][:mx]
+        om = rng.choice([0, 0, 1])
+        for (x, y) in ((0, 1), (1, 0)):
+            if count >= n:
+                return
+            yield {"kind": kind, "max": mx, "on_miss": om, "init": init,
+                   "threads": [[a], b] if x == 0 else [b, [a]], "scheds": _sys_scheds(x, y)}
+            count += 1
